@@ -198,3 +198,111 @@ func (c17) Class(e Ev) string {
 	p := GB(e["pkt"])
 	return fmt.Sprintf("write/pusi%v/afc%d/%s/held%d", p[1]&0x40 != 0, p[3]>>4&3, GS(e["err"]), len(GIs(e["pk"])))
 }
+
+// ---- B2: replay of TLC-generated behaviours (Sim_C17) on a real accumulator ----
+
+func (c17) Table(rows []Ev, tier string, seed int64, rep *TableReport) {
+	r := rand.New(rand.NewSource(seed))
+	for bi, row := range rows {
+		pr := asMap(row["pred"])
+		done, fail := GI(pr["done"]), GI(pr["fail"])
+		acc := packet.NewAccumulator(func(b []byte) (bool, error) {
+			if fail > 0 && len(b) >= fail {
+				return false, errPred
+			}
+			return done > 0 && len(b) >= done, nil
+		})
+		written := map[int][]byte{} // abstract id -> real packet bytes
+		nopay := map[int]bool{}     // ids rejected for lack of payload (their listing is left open)
+		complete := false
+		steps := toList(row["steps"])
+		for si, sx := range steps {
+			s := asMap(sx)
+			res := ""
+			var gotBytes []byte
+			var gotIds []int
+			pan := guard(func() {
+				if GS(s["op"]) == "reset" {
+					acc.Reset()
+					complete = false
+					res = "reset"
+				} else {
+					pm := asMap(s["p"])
+					pl := GB(pm["payload"])
+					id := GI(pm["id"])
+					afLen := 183 - len(pl)
+					if !GBool(pm["haspay"]) {
+						afLen = 183
+					}
+					p := mkPkt(r, 0x100, id, GBool(pm["pusi"]), GBool(pm["haspay"]), afLen)
+					copy(p[188-len(pl):], pl)
+					written[id] = append([]byte(nil), p[:]...)
+					_, err := acc.WritePacket(&p)
+					switch err {
+					case nil:
+						res = "nil"
+					case gots.ErrNoPayloadUnitStartIndicator:
+						res = "nopusi"
+					case gots.ErrAccumulatorDone:
+						if complete {
+							res = "refused-done"
+						} else {
+							res, complete = "done", true
+						}
+					case errPred:
+						res = "pred"
+					default:
+						res = "nopayload"
+						nopay[id] = true
+					}
+					for k := range p {
+						p[k] ^= 0xa5
+					}
+				}
+				gotBytes = acc.Bytes()
+				for _, q := range acc.Packets() {
+					idx := -1
+					for id, w := range written {
+						if string(w) == string(q[:]) {
+							idx = id
+						}
+					}
+					gotIds = append(gotIds, idx)
+				}
+			})
+			filt := func(ids []int) []int {
+				out := []int{}
+				for _, x := range ids {
+					if !nopay[x] {
+						out = append(out, x)
+					}
+				}
+				return out
+			}
+			rep.Compared++
+			reason := ""
+			switch {
+			case pan != "":
+				reason = "replay-" + pan
+			case res != GS(s["res"]):
+				reason = fmt.Sprintf("replay-result-%s-expected-got-%s", GS(s["res"]), res)
+			case string(gotBytes) != string(GB(s["buf"])):
+				reason = "replay-bytes"
+			case fmt.Sprint(filt(gotIds)) != fmt.Sprint(filt(GIs(s["pkts"]))):
+				reason = "replay-packets"
+			}
+			rep.Classes[fmt.Sprintf("replay/%s/%s", GS(s["op"]), GS(s["res"]))]++
+			if reason != "" {
+				if len(rep.Mismatches) < 50 {
+					rep.Mismatches = append(rep.Mismatches, Ev{"op": "behaviour", "reason": reason, "behaviour": bi, "step": si, "pred": pr,
+						"steps": steps[:si+1], "got_res": res, "got_bytes": B(gotBytes), "got_pkts": filt(gotIds)})
+				}
+				break
+			}
+		}
+	}
+	rep.Note = "TLC-simulated behaviours of Accumulator (depth 10, 12 predicates) replayed on a real accumulator with 188-byte packets; packet listing compared modulo packets rejected for lack of payload"
+	if len(rows) > 0 {
+		rep.Samples = []Ev{{"pred": rows[0]["pred"], "first_steps": toList(rows[0]["steps"])[:3]}}
+	}
+}
